@@ -82,14 +82,14 @@ CONF = {
         "rule": "cases = concurrent scenarios: 1-9 bars, queue length from {default, 0, 1, 2, n-1, n, n+1}, refresh none/manual/injected auto/real ticker 1-3 ms, 0-2 synchronised decorators per side with wrapper stacks, pop mode, removal, queued successors, priority changes, 1-2 phases of 1-4 client goroutines issuing up to 10 operations each (updates, aborts, priority changes, Progress.Write, render ticks, late adds, getters, optional cancel/Shutdown), keyed delays at the hook points and one directed hold; every program ends by finishing all bars and calling Wait; non-trivial = >=2 bars and (sync decorators on >=2 bars, n>q, pop mode or concurrent clients); distinct by FNV-64 of the scenario JSON",
         "assumptions": GO_ASSUME + SCHED_ASSUME,
         "tiers": tiers(8, 1200, 16, 15000, gomaxprocs=[4, 2, 8, 1]),
-        "require_classes": ["refresh:autort", "refresh:autoinj", "refresh:manual", "refresh:none", "n>q", "sync>=2bars", "n>q+sync", "pop", "cancelled", "hold"],
+        "require_classes": ["refresh:autort", "refresh:autoinj", "refresh:manual", "refresh:none", "n>q", "sync>=2bars", "n>q+sync", "pop", "cancelled", "hold", "user-waitgroup", "render-fault", "clocked"],
     },
     "C02": {
         "rule": "cases = concurrent scenarios over the public API (Add, Write, UpdateBarPriority, every Bar mutator and getter, proxies, TraverseDecorators, DecoratorAverageAdjust, Bar.Wait) from 1-4 client goroutines in 1-2 phases, with context cancel or Shutdown inserted at a generated position inside a phase (60% of cases), all refresh modes, queue lengths incl. n>q, perturbation; then 1-12 late calls after Wait returned; non-trivial = the done event lies inside the history and there is >=1 late call; distinct by FNV-64 of the scenario JSON",
         "assumptions": GO_ASSUME + SCHED_ASSUME + ["a worker process that dies (panic in a library goroutine, fatal error) is a violation; the journalled scenario is the replay file", "documented panics (nil reader/writer to a proxy, MustAdd after done, uninitialised WC) are not generated"],
         "crash_is_violation": True,
         "tiers": tiers(8, 1200, 16, 15000, gomaxprocs=[4, 2, 8, 1]),
-        "require_classes": ["refresh:autort", "refresh:autoinj", "refresh:manual", "refresh:none", "done-inside-history", "late-add", "late-write", "late-proxy", "n>q", "call-lost-race-with-done", "render-fault"],
+        "require_classes": ["refresh:autort", "refresh:autoinj", "refresh:manual", "refresh:none", "done-inside-history", "late-add", "late-write", "late-proxy", "n>q", "call-lost-race-with-done", "render-fault", "bar-id-option"],
     },
     "C14": {
         "rule": "cases = programs with the cancel event (context cancel or Shutdown) (a) as a step anywhere in a sequential program, (b) inside a concurrent phase of 1-3 client goroutines, (c) fired from inside a library hook point (flush of a bar, bar render, render begin/end, heap-manager request, width sent/collected, bar exit) at occurrence 1-12; all refresh modes, 1-6 bars with shutdown-listening decorators under 0-3 wrapper layers, notifier configured or not; non-trivial = the cancel lands after >=1 Add with >=1 listener and an unfinished bar (or inside the library); distinct by FNV-64 of the scenario JSON",
